@@ -120,7 +120,7 @@ CHECKS.update({
 CHECKS.update({
     'C10': dict(
         level='other', technique='abstract interpretation of the DiskChopper methods on both rotation senses; witness-guided symbolic interpretation (sa/witness.py) of validation, repetition count and pulse expansion over order types',
-        text='Static: the time offset of an angle is (beam_position+phase-theta_rep)/omega (+ one period iff anticlockwise) in float64 without integer unit conversion; open/close use complementary edges by rotation sense and close-open = (end-begin)/|omega|; over every order type of the edges of one and two slits on a grid of angles _check_edges accepts exactly the non-reversed, non-overlapping slit sets (also across top-dead-centre) and construction runs it; frequency ratios are accepted iff integer or inverse integer to 1e-8; the open/close arrays hold exactly one pair per slit and turn for turns -1..n-1 as exact terms; over several source pulses (frequency ratios 1/4..2, both senses) every pair reported by from_disk_chopper is an opening of the rotating disk, none is reported twice and none inside the covered span is missing (found and fixed F16); a second request gives the same answer, also with slit edges in rad.',
+        text='Static: the time offset of an angle is (beam_position+phase-theta_rep)/omega (+ one period iff anticlockwise) in float64 without integer unit conversion; open/close use complementary edges by rotation sense and close-open = (end-begin)/|omega|; over every order type of the edges of one and two slits on a grid of angles (deg and rad) constructing a DiskChopper succeeds for exactly the non-reversed, non-overlapping slit sets (also across top-dead-centre); frequency ratios are accepted iff integer or inverse integer to 1e-8 (decided on time_offset_open: n+1 times per slit for ratio n, ValueError otherwise); the open/close arrays hold exactly one pair per slit and turn for turns -1..n-1 as exact terms; over several source pulses (frequency ratios 1/4..2, both senses) every pair reported by from_disk_chopper is an opening of the rotating disk, none is reported twice and none inside the covered span is missing (found and fixed F16); a second request gives the same answer, also with slit edges in rad.',
         note='that delta_t(theta) describes the physical disk is the documented convention, not derived', ref='8'),
     'C11': dict(
         level='other', technique='witness-guided symbolic interpretation: vertices, windows and distances are symbols with exact rational witness values, comparisons are decided at the witness, reported vertices stay exact terms and are compared with a reference model written from the definition (spec/clip.py); floating-point exactness tags for the interpolation',
@@ -143,8 +143,8 @@ CHECKS.update({
         text='Static: every documented refusal raises before anything is handed to savetxt or written and every accepted input is saved by exactly one savetxt call; the table saved has the columns (selected coordinate values, data values, sqrt(variances)) as exact terms; >=17 significant digits, one-character delimiter the loader splits on, comments untouched, header through savetxt; the coordinate selected is the documented one irrespective of alignment flags; load_xye returns column 1, column 2 squared, column 0 and one-row files load as 1-d columns.',
         note='round-trip of %.18e through numpy/C is trusted', ref='8'),
     'C17': dict(
-        level='other', technique='witness-guided interpretation of peaks/_fit_peaks.py and _remove_peaks.py with recording stubs for the optimiser, the chi-square distribution and the fit models',
-        text='Static: with fewer points than parameters a window-too-narrow result is returned without consuming the data and a failing optimiser gives a failed result; over all combinations of violated requirements (on a non-uniform grid, incl. zero degrees of freedom) _assess_fit returns success iff none is violated, otherwise names a violated one, never raising; fit_peaks returns one result per window in order fitted on the data inside the window and _fit_peak returns the first success in product order else the first candidate for all 16 patterns; the statistics are chi2/(n-k), 1-cdf, n ln(chi2/n)+2k as exact terms of the window data and the model at the returned parameters; automatic windows are clipped to the data range and the neighbour separation (also for overlapping windows); remove_peaks subtracts exactly the successful peaks inside their windows from a copy.',
+        level='other', technique='witness-guided interpretation of fit_peaks and remove_peaks end to end; the third-party calls (optimiser, chi-square distribution) and the fit models are recording stubs programmed per scenario, so every clause is read off the public results',
+        text='Static, through fit_peaks only: with fewer points in the window than parameters a window-too-narrow result is returned without consuming the data, and a failing optimiser gives a failed result; over all 216 combinations of violated requirements (non-uniform grid, peak locations inside, at and outside the window, with and without a converging background-only fit) the assessment is success iff none is violated and otherwise names a violated one, never raising; one result per estimate in order, fitted on exactly the points of its window, first success in (peak, background) product order else the first candidate (all 16 success patterns); FitResult.red_chisq / p_value / aic are chi2/(n-k), 1-cdf(chi2; n-k), n ln(chi2/n)+2k as exact terms of the window data and the model values at the returned parameters (zero and one degree of freedom included); windows from a width are [c-w/2, nextafter(c+w/2)] clipped to the data range and the neighbour separation; remove_peaks subtracts exactly the peaks of successful results inside their windows from a copy.',
         note='optimiser outcomes are not decided', ref='8'),
     'C18': dict(
         level='other', technique='abstract interpretation (rotation vector, geometry kernels, transmission fraction); witness-guided interpretation with recording stubs (scaling/rotation/translation of a symbolic rule, transmission map); constant folding of the reference rules with numpy; effect summaries incl. memoising wrappers',
